@@ -662,6 +662,11 @@ class Optimizer(object):
 
         # q-ACQ multi point acquisition for centralized setting
         if len(self.models) > 0 and strategy.startswith("qLCB"):
+            # the first point of the batch is the one computed by the last call to tell(),
+            # it is tracked before filtering the candidates so that it is not picked again
+            X = [self._next_x]
+            self.sampled.append(self._next_x)
+
             Xsample = self.space.rvs(
                 n_samples=self.n_points, random_state=self.rng, n_jobs=self.n_jobs
             )
@@ -679,11 +684,18 @@ class Optimizer(object):
             kappa = self.acq_func_kwargs.get("kappa", 1.96)
             kappas = self.rng.exponential(kappa, size=n_points - 1)
 
-            X = [self._next_x]
+            # a candidate is picked at most once in the batch (as long as others remain)
+            available = np.ones(len(Xsample), dtype=bool)
             for kappa in kappas:
                 values = mu - kappa * std
+                if available.any():
+                    values = np.where(available, values, np.inf)
                 idx = np.argmin(values)
+                available[idx] = False
                 X.append(Xsample[idx])
+
+            # to track sampled values and avoid duplicates
+            self.sampled.extend(X[1:])
 
             return X
 
